@@ -20,7 +20,7 @@ const (
 	nCorrupt    = 19
 	nViewFault  = 6
 	nMisc       = 6
-	nURLCorrupt = 6
+	nURLCorrupt = 11
 	maxSec      = int64(1) << 62
 )
 
@@ -1406,6 +1406,16 @@ func (s *sim) misc(a *acct, e *Event) {
 			case 6:
 				txt = strings.Replace(txt, "Example:", "Example", 1)
 				txt = strings.Replace(txt, "Example%3A", "Example", 1)
+			case 7: // a query parameter given twice (what a sloppy QR generator or a merge of two URLs produces)
+				txt += "&secret=" + url.QueryEscape(up.Secret)
+			case 8:
+				txt += "&secret=" + url.QueryEscape(up.Secret) + "AA"
+			case 9:
+				txt += "&digits=8&period=60&algorithm=SHA256"
+			case 10:
+				txt += "&issuer=Other&issuer=Third"
+			case 11: // unknown extra parameters and an empty one
+				txt += "&image=https%3A%2F%2Fexample.com%2Flogo.png&=x&counter=5"
 			}
 			if e.Net.Corrupt != 0 {
 				verifh.Count("fault.url-corrupted", 1)
